@@ -177,7 +177,7 @@ def run(ctx):
     rng = ctx.rng
     ktr, etr = [], []
     cfgs = set()
-    target = 60 if thorough else 24
+    target = 160 if thorough else 24
     tries = 0
     while len(cfgs) < target and tries < 1000:
         tries += 1
@@ -206,7 +206,7 @@ def run(ctx):
                 etr.append(dict(id=len(etr) + 1, sig=_sig(c) + " " + kind, site=ESITE, ev=[t]))
             except Exception as e:
                 ctx.violation("EstimatorRuns", ESITE, _sig(c) + " " + kind, repr(e), case=c)
-    for _ in range(150 if thorough else 40):
+    for _ in range(600 if thorough else 40):
         try:
             ev = run_history(ctx, rng, rng.randint(2, 4))
             etr.append(dict(id=len(etr) + 1, sig="history", site=ESITE, ev=ev))
